@@ -69,6 +69,7 @@ def spaces(tier):
         out += [cs.fn_space(L) for L in range(4, 10) if fn_ok]
         out += [cs.fn_space(7, stretch=60)] if fn_ok else []
         out.append(cs.sequence_space(3))
+        out.append(cs.sequence_space(3, dataset=3))
         for n in (5, 6, 7):
             out.append(cs.db_space(n, cs.COMBOS[n % 4], 0, binary=True))
     else:
@@ -77,6 +78,7 @@ def spaces(tier):
         out += [cs.fn_space(L) for L in range(4, 12) if fn_ok]
         out += [cs.fn_space(8, stretch=60)] if fn_ok else []
         out.append(cs.sequence_space(4))
+        out.append(cs.sequence_space(4, dataset=3))
         for n in (5, 6, 7, 8, 9):
             out.append(cs.db_space(n, cs.COMBOS[n % 4], 0, binary=True))
     return out
